@@ -188,8 +188,24 @@ def run(chk: core.Check, tier: str, seed: int) -> None:
     if len(recs) - n_before < 50:
         raise core.MachineryError("the sibling documents produced no records")
     recs += common.inplace_edit_records(jp, common.ROOT_QUERIES)
+    # "numbers by numeric value": a literal against the document number a JSON decoder makes of the SAME text - also beyond the
+    # range where the value model is exact (there the model abstains from values, but same text = same number is still pinned)
+    import json as _json  # noqa: PLC0415
+    for text in ("1e23", "3e25", "7e100", "1e308", "12345678901234567e3", "1E+23", "5e22", "1e16", "9007199254740993", "123e20", "1.5e300",
+                 "0.30000000000000004", "1e-7", "5e-324", "2.5e-300", "123456789012345678901234567890", "1.0e15", "4.35", "1e22", "1e21"):
+        for sign in ("", "-"):
+            t = sign + text
+            doc = [_json.loads(t)]
+            for cmp_ in ("==", "!=", "<", "<=", ">", ">="):
+                q = f"$[?@ {cmp_} {t}]"
+                rec = {"op": "sametext", "q": core.enc_text(q), "t": core.enc_text(t), "cmp": cmp_, "sel": False, "out": "ok", "cls": ""}
+                try:
+                    rec["sel"] = len(jp.find(q, doc)) == 1
+                except Exception as err:  # noqa: BLE001
+                    rec["out"], rec["cls"] = "raise", type(err).__name__
+                recs.append(rec)
     for r in recs:
-        chk.nontrivial.add((tuple(r["q"]), str(r["doc"])[:300]))
+        chk.nontrivial.add((tuple(r["q"]), str(r.get("doc"))[:300]))
     chk.sample({"query": core.dec_text(recs[5]["q"]), "doc": core.dec_value(recs[5]["doc"]), "locs": recs[5]["locs"]})
     common.judge(chk, recs, "c06", what="Trace: comparison records vs JsonVal!Cmp",
                  only=lambda c: c.startswith(("C13 find", "C03")) or not c.startswith(("C03", "C04", "C05", "C13")))
